@@ -13,8 +13,9 @@
 //   block of 4<<ordinal bytes at ANY address that is a multiple of the block size (placement is a
 //   symbolic input) and count alloc/free per block.
 // Symbolic: payload size class (from the configured list), payload contents seed, copy- vs
-//   move-construction of the callable, placement of every OnceFunction object (any multiple of
-//   alignof(OnceFunction) modulo 256), placement of the small-buffer block (any multiple of the
+//   move-construction of the callable, placement of every OnceFunction object (VF_SYMSLOTS=2: any
+//   multiple of alignof(OnceFunction) modulo 256; default: a fixed odd multiple, the least aligned
+//   admissible class), placement of the small-buffer block (any multiple of the
 //   block size modulo 512), malloc placement for alignedMalloc (any multiple of 16), move chain
 //   length 0..VF_CHAIN with each step being move construction / move assignment into a
 //   default-constructed object / self move assignment, final operator() vs cleanupNotRun().
@@ -194,8 +195,7 @@ void deallocSmallBufferImpl(size_t ordinal, void* buf) {
 } // namespace dispenso
 
 // ------------------------------------------------------------------------------------- scenario
-// Backing store of the OnceFunction objects: slot i lives at g_slots[i].m + alignof(OF)*k with
-// symbolic k, i.e. at any address the type's alignment admits (modulo 256).
+// Backing store of the OnceFunction objects: slot i lives at g_slots[i].m + alignof(OF)*k.
 struct alignas(256) SlotMem {
   unsigned char m[512];
 };
